@@ -43,9 +43,15 @@ def harness_source(fe: Frontend) -> str:
         parts.append(f'''
 @harness("roundtrip-{ci.name}", module="{API}")
 def _(m: {ci.name}):
-    may_raise(Exception, when=not ({domain_expr(ci)}), tag="rejects-only-outside-domain", top=True)
-    b = ser(m)
-    r = deser(b)
-    ensures({post}, tag="decode-of-encode-is-identity", top=True)
+    rejected = False
+    r = m
+    try:
+        b = ser(m)
+    except Exception:
+        rejected = True   # "a value outside the admitted domain is rejected WHEN ENCODING"
+    if not rejected:
+        r = deser(b)      # decoding what was encoded must not raise: an exception here escapes the harness and fails it
+    ensures(implies(rejected, not ({domain_expr(ci)})), tag="rejects-only-outside-domain", top=True)
+    ensures(implies(not rejected, {post}), tag="decode-of-encode-is-identity", top=True)
 ''')
     return "".join(parts)
